@@ -591,6 +591,88 @@ impl Sess {
     }
 
     /// H-i: a reorganisation lands between the builder's snapshot and the building of a block.
+    /// Light-client race episode (C19, chain root served next to a header): a poller thread sends
+    /// GetLastState requests through the real protocol handler while this thread delivers a
+    /// heavier competing branch block by block; seeded delays right after every snapshot load
+    /// (hook point `shared::after_snapshot_load`) stretch the distance between two loads made by
+    /// one handler. Every reply must be self-consistent on the chain of the header it names.
+    fn light_race_episode(&mut self, r: &mut Report, lt: &mut light::Light) {
+        if !self.light_on || self.dead {
+            return;
+        }
+        if !self.sync_tips(r) {
+            return;
+        }
+        let f = self.n_tip();
+        let k_a = 2 + self.rng.usize_below(3);
+        let mut a = vec![];
+        let mut cur = f;
+        for _ in 0..k_a {
+            cur = self.make_block(&cur);
+            a.push(cur);
+        }
+        let mut b = vec![];
+        cur = f;
+        for _ in 0..(k_a + 2) {
+            cur = self.make_block(&cur);
+            b.push(cur);
+        }
+        for x in a.clone() {
+            if !self.deliver(&x, r) {
+                return;
+            }
+        }
+        if self.n_tip() != *a.last().unwrap() {
+            r.inconclusive("harness: node did not follow branch A in a light race episode");
+            self.dead = true;
+            return;
+        }
+        self.ops.push(format!("light race: fork point {}#{} A={} B={}", hx(&f), self.tg.rc.get(&f).number, a.len(), b.len()));
+        let stop = std::sync::Arc::new(std::sync::atomic::AtomicBool::new(false));
+        let shared = self.n.shared.clone();
+        let stop2 = stop.clone();
+        let poller = std::thread::Builder::new()
+            .name("vfilter-light-poller".into())
+            .spawn(move || {
+                let rt = tokio::runtime::Builder::new_current_thread().enable_all().build().unwrap();
+                let mut out = vec![];
+                while !stop2.load(Ordering::SeqCst) && out.len() < 4000 {
+                    out.push(light::raw_last_state(&shared, &rt));
+                }
+                out
+            })
+            .unwrap();
+        {
+            let mut points = std::collections::BTreeMap::new();
+            points.insert("shared::after_snapshot_load", (350u64, 250u64));
+            hooks::set_plan(hooks::DelayPlan { points, seed: self.si ^ 0x51a7 });
+        }
+        let mut acceptable: HashSet<H> = HashSet::new();
+        acceptable.insert(*a.last().unwrap());
+        let mut ok = true;
+        for x in b.clone() {
+            if !self.deliver(&x, r) {
+                ok = false;
+                break;
+            }
+            acceptable.insert(self.n_tip());
+            std::thread::sleep(Duration::from_micros(300));
+        }
+        std::thread::sleep(Duration::from_millis(2));
+        stop.store(true, Ordering::SeqCst);
+        hooks::set_plan(hooks::DelayPlan::default());
+        let replies = poller.join().unwrap_or_default();
+        if !ok {
+            return;
+        }
+        r.count("light_race.episodes");
+        let ctx = light::Ctx { si: self.si, params: &self.params_desc, ops: &self.ops, at: "light race: while branch B was delivered" };
+        lt.judge_concurrent_last_states(&self.tg.rc, &self.delivered, &acceptable, replies, &ctx);
+        if self.n_tip() == *b.last().unwrap() {
+            self.light_probe(lt, "light race: on branch B", 4);
+        }
+    }
+
     fn race_episode(&mut self, r: &mut Report, lt: &mut light::Light) {
         if !self.sync_tips(r) {
             return;
@@ -784,6 +866,7 @@ fn run_session(si: u64, rng: &mut Rng, r: &mut Report, lt: &mut light::Light, li
         s.build_and_check(r, "genesis only");
     }
     let mut races = 0;
+    let mut light_races = 0;
     for step in 0..steps {
         if s.dead || Instant::now() > deadline {
             break;
@@ -794,6 +877,11 @@ fn run_session(si: u64, rng: &mut Rng, r: &mut Report, lt: &mut light::Light, li
         if with_races && k < 7 && tip_n >= 4 && races < 3 {
             races += 1;
             s.race_episode(r, lt);
+            continue;
+        }
+        if with_races && (7..12).contains(&k) && tip_n >= 4 && light_races < 3 {
+            light_races += 1;
+            s.light_race_episode(r, lt);
             continue;
         }
         let parent = if k < 27 && tip_n >= 1 {
@@ -830,6 +918,7 @@ fn main() {
     let args = Args::parse();
     let _ = vnode::node::scratch_dir();
     vnode::node::set_time(ChainParams::default().genesis_timestamp + 3_000_000_000);
+    hooks::install();
     hooks::install_panic_monitor();
     let installed = ckb_block_filter::verif::install(Box::new(on_filter_point));
     let mut r = Report::new(
